@@ -175,8 +175,15 @@ class AirTouchSocket(Generic[comms.Hdr]):
     async def close(self) -> None:
         """Close the socket to the AirTouch."""
         if self.is_open:
-            await self._disconnect()
             self.is_open = False
+            await self._disconnect()
+
+            # Stop any pending or delayed connection attempts so that nothing
+            # re-connects once the socket has been closed.
+            current_task = asyncio.current_task()
+            for task in list(self._background_tasks):
+                if task is not current_task:
+                    task.cancel()
 
     async def send(self, message: comms.Message, retry_policy: RetryPolicy) -> None:
         """Send a message to the AirTouch.
@@ -308,6 +315,13 @@ class AirTouchSocket(Generic[comms.Hdr]):
             finally:
                 self._is_connecting = False
 
+            if not self.is_open:
+                # The socket was closed while the connection attempt was in flight.
+                self._writer.close()
+                self._reader = None
+                self._writer = None
+                return
+
             self.is_connected = True
             _LOGGER.debug("Connected to %s:%d", self.host, self.port)
             await self._notify_connection_changed(connected=self.is_connected)
@@ -319,7 +333,7 @@ class AirTouchSocket(Generic[comms.Hdr]):
         except OSError as ex:
             _LOGGER.debug("Unable to connect. Will try again later. Reason: %s", ex)
 
-        if not self.is_connected:
+        if not self.is_connected and self.is_open:
             # Connection failed, so retry after a small delay
             self._schedule(self._connect(), delay=_CONNECT_RETRY_DELAY)
 
@@ -346,7 +360,8 @@ class AirTouchSocket(Generic[comms.Hdr]):
         underlying socket.
         """
         await self._disconnect()
-        self._schedule(self._connect())
+        if self.is_open:
+            self._schedule(self._connect())
 
     async def _read(self) -> None:
         """The main read loop for the AirTouch socket."""
@@ -546,5 +561,11 @@ T = TypeVar("T")
 
 async def _delay(coro: Awaitable[T], delay: float) -> T:
     """Delays the execution of an awaitable."""
-    await asyncio.sleep(delay)
+    try:
+        await asyncio.sleep(delay)
+    except asyncio.CancelledError:
+        # Cancelled before the awaitable was started.
+        if asyncio.iscoroutine(coro):
+            coro.close()
+        raise
     return await coro
